@@ -12,9 +12,11 @@ H = F(662607015, 10 ** 35)
 C = F(299792458) * 10 ** 10
 JY = F(1, 10 ** 23)
 
-UNITS = ['photlam', 'photnu', 'flam', 'fnu', 'jy', 'mjy', 'ujy', 'stmag', 'abmag', 'count', 'obmag', 'vegamag']
+UNITS = ['photlam', 'photnu', 'flam', 'fnu', 'jy', 'mjy', 'ujy', 'megajy', 'pjy', 'petajy', 'stmag', 'abmag', 'count', 'obmag', 'vegamag']
 MAGS = {'stmag', 'abmag', 'obmag', 'vegamag'}
-JY_SCALE = {'jy': F(1), 'mjy': F(1, 1000), 'ujy': F(1, 10 ** 6), 'njy': F(1, 10 ** 9)}
+# prefixed Jy units, among them pairs whose symbols differ only in letter case (mJy / MJy, pJy / PJy)
+JY_SCALE = {'jy': F(1), 'mjy': F(1, 1000), 'ujy': F(1, 10 ** 6), 'njy': F(1, 10 ** 9), 'megajy': F(10 ** 6), 'pjy': F(1, 10 ** 12),
+            'petajy': F(10 ** 15)}
 WAVE_UNITS = {           # name -> (kind, factor) as in Synphot.WaveUnit
     'AA_number': ('length', F(1)), 'AA': ('length', F(1)), 'nm': ('length', F(10)),
     'micron': ('length', F(10 ** 4)), 'm': ('length', F(10 ** 10)),
@@ -34,7 +36,7 @@ def astropy_unit(name):
     import astropy.units as u
     from synphot import units
     return {'photlam': units.PHOTLAM, 'photnu': units.PHOTNU, 'flam': units.FLAM, 'fnu': units.FNU,
-            'jy': u.Jy, 'mjy': u.mJy, 'ujy': u.uJy, 'njy': u.nJy, 'stmag': u.STmag, 'abmag': u.ABmag,
+            'jy': u.Jy, 'mjy': u.mJy, 'ujy': u.uJy, 'njy': u.nJy, 'megajy': u.MJy, 'pjy': u.pJy, 'petajy': u.PJy, 'stmag': u.STmag, 'abmag': u.ABmag,
             'count': u.count, 'obmag': units.OBMAG, 'vegamag': units.VEGAMAG}[name]
 
 
@@ -414,7 +416,7 @@ def run(rep):
     for name, expect in NAMES:
         for s in casings(rng, name):
             cases.append({'op': 'unit_name', 'name': s, 'expect': expect})
-    rep.rule = ('every ordered pair of 12 flux units (incl. Jy, mJy, uJy) x wavelength-unit kinds x {ascending, descending, scalar}, '
+    rep.rule = ('every ordered pair of 15 flux units (incl. Jy, mJy, uJy, MJy, pJy, PJy) x wavelength-unit kinds x {ascending, descending, scalar}, '
                 'plus random pairs; wavelengths log-uniform in 1e1..1e7 A, linear fluxes log-uniform over 60 decades with '
                 'both signs and zeros, magnitudes in [-60, 60], area in cm^2 or m^2, positive Vega table; 35% with an '
                 'intermediate unit C (A->C->B); half of the Vega conversions after 1-2 earlier conversions with the same Vega object (same numbers in another wavelength unit, same grid, other grid); every unit name of the statement in up to 6 letter casings. '
